@@ -348,7 +348,7 @@ def r01_6(rep, M, rid):
         return
     rep.ok(rid, "ValueError is raised for a zero-length cell vector along a periodic direction")
     n, r, conds = good[0]
-    loops = [t for t, pol in conds if isinstance(t, ast.For)]
+    loops = [t for t, pol in conds if isinstance(t, ast.For) and pol is True]
     guard_node = cfg.node_of[id(loops[0])] if loops else n
     need = []
     for m, d in cfg.g.nodes(data=True):
@@ -610,6 +610,171 @@ def r01_9(rep, M, rid):
         rep.violation(rid, "get_clusters: seed atom choice", "the seed atom is not drawn from the seeded generator", M.where(GC))
 
 
+# ----------------------------------------------------------------------------- call-local instance state
+def call_local_state(rep, M, rid, fq, allowed_config=()):
+    """a method that must be a function of its arguments may read self.<attr> only if the same call wrote it on every
+    path before (or the attribute is pure configuration set in __init__ and never written here)"""
+    fn = M.func(fq)
+    fl = Flow(fn)
+    cq = M.enclosing_class(fq)
+    written = {}
+    for n, d in fl.cfg.g.nodes(data=True):
+        s2 = d["ast"]
+        if isinstance(s2, (ast.Assign, ast.AugAssign)):
+            for t in (s2.targets if isinstance(s2, ast.Assign) else [s2.target]):
+                for el in (t.elts if isinstance(t, (ast.Tuple, ast.List)) else [t]):
+                    if isinstance(el, ast.Attribute) and isinstance(el.value, ast.Name) and el.value.id == "self":
+                        written.setdefault(el.attr, []).append(n)
+        if isinstance(s2, ast.Expr) and isinstance(s2.value, ast.Call) and isinstance(s2.value.func, ast.Name) and s2.value.func.id == "setattr" \
+                and s2.value.args and norm(s2.value.args[0]) == "self" and isinstance(s2.value.args[1], ast.Constant):
+            written.setdefault(s2.value.args[1].value, []).append(n)
+    bad = 0
+    nread = 0
+    for n, d in fl.cfg.g.nodes(data=True):
+        s2 = d["ast"]
+        if s2 is None:
+            continue
+        reads = []
+        for x in walk_own(s2):
+            if isinstance(x, ast.Attribute) and isinstance(x.value, ast.Name) and x.value.id == "self" and isinstance(x.ctx, ast.Load):
+                reads.append((x.attr, x))
+            if isinstance(x, ast.Call) and isinstance(x.func, ast.Name) and x.func.id in ("getattr", "hasattr") and len(x.args) >= 2 \
+                    and norm(x.args[0]) == "self" and isinstance(x.args[1], ast.Constant):
+                reads.append((x.args[1].value, x))
+            if isinstance(x, ast.Attribute) and isinstance(x.value, ast.Name) and x.value.id == "self" and x.attr == "__dict__":
+                reads.append(("__dict__", x))
+        for attr, x in reads:
+            if cq and M.find_method(cq, attr):
+                continue
+            nread += 1
+            if attr in allowed_config and attr not in written:
+                continue
+            w = [m for m in written.get(attr, []) if m != n]
+            if w and fl.cfg.all_paths_pass(fl.cfg.entry, n, w):
+                continue
+            bad += 1
+            rep.violation(rid, f"{fq.split('.')[-1]}: read of self.{attr}", f"`{norm(x)[:60]}` reads instance state that this call has not (on every "
+                          "path) written before: the result depends on earlier calls on the same object, not only on (structure, parameters, seed)",
+                          M.where(fq, x))
+    if not bad:
+        rep.ok(rid, f"{fq.split('.')[-1]}: all {nread} reads of instance state are preceded by a write in the same call")
+
+
+# ----------------------------------------------------------------------------- R01.11 localize: all but one
+def r01_11(rep, M, rid):
+    fq = SBC + "._localize_clusters"
+    fn = M.func(fq)
+    fl = Flow(fn)
+    removes = [c for c in ast.walk(fn) if isinstance(c, ast.Call) and isinstance(c.func, ast.Attribute) and c.func.attr in ("remove", "discard")]
+    if not removes:
+        rep.violation(rid, "_localize_clusters: removal", "multiply-assigned atoms are never removed from any cluster", M.where(fq))
+        return
+    for c in removes:
+        at = fl.node_of(c)
+        conds = fl.cfg.branch_conditions(at)
+        loops = [t for t, pol in conds if isinstance(t, ast.For) and pol is True]
+        if len(loops) < 2:
+            raise AnalysisError("_localize_clusters: removal is not inside (atoms x clusters) loops")
+        inner, outer = loops[-1], loops[-2]
+        atom = norm(c.args[0])
+        # outer loop: every atom with its list of clusters; inner: every cluster of that list
+        tv = [x.id for x in ast.walk(outer.target) if isinstance(x, ast.Name)]
+        lst = tv[-1] if tv else None
+        full_inner = norm(inner.iter) == lst and not any(isinstance(x, (ast.Break, ast.Continue, ast.Return)) for x in ast.walk(inner))
+        # the guard: cluster != chosen
+        guards = [t for t, pol in conds if isinstance(t, ast.If) and pol is True and isinstance(t.test, ast.Compare)
+                  and isinstance(t.test.ops[0], (ast.NotEq, ast.IsNot)) and norm(inner.target) in (norm(t.test.left), norm(t.test.comparators[0]))]
+        multi = [t for t, pol in conds if isinstance(t, ast.If) and pol is True and "len(" in norm(t.test) and lst and lst in norm(t.test)
+                 and isinstance(t.test, ast.Compare) and isinstance(t.test.ops[0], ast.Gt) and norm(t.test.comparators[0]) == "1"]
+        chosen = None
+        if guards:
+            g = guards[0].test
+            chosen = norm(g.comparators[0]) if norm(g.left) == norm(inner.target) else norm(g.left)
+        chosen_ok = False
+        if chosen:
+            defs = [d for d in ast.walk(outer) if isinstance(d, ast.Assign) and norm(d.targets[0]) == chosen]
+            chosen_ok = bool(defs) and all(norm(d.value) == f"{lst}[0]" or (isinstance(d.value, ast.Name) and any(
+                isinstance(lp, ast.For) and norm(lp.target) == d.value.id and norm(lp.iter) == lst for lp in ast.walk(outer))) for d in defs)
+        atom_ok = atom == (tv[0] if tv else None)
+        if full_inner and guards and chosen_ok and multi and atom_ok:
+            rep.ok(rid, f"_localize_clusters: atom `{atom}` is removed from every cluster of `{lst}` except the one chosen cluster `{chosen}`")
+        else:
+            rep.violation(rid, "_localize_clusters: removal loop", f"a multiply-assigned atom is not removed from all-but-exactly-one of its clusters "
+                          f"(loops over the whole list without break: {full_inner}; guard `cluster != chosen`: {bool(guards)}; chosen is one of the "
+                          f"list: {chosen_ok}; only when more than one cluster: {bool(multi)}; removed atom is the shared one: {atom_ok}): clusters stay overlapping",
+                          M.where(fq, c))
+    # the overlap map enumerates every (atom, cluster) membership
+    appends = [c for c in ast.walk(fn) if isinstance(c, ast.Call) and isinstance(c.func, ast.Attribute) and c.func.attr == "append"
+               and isinstance(c.func.value, ast.Subscript)]
+    ok = False
+    for c in appends:
+        conds = fl.cfg.branch_conditions(fl.node_of(c))
+        loops = [t for t, pol in conds if isinstance(t, ast.For) and pol is True]
+        member = [t for t, pol in conds if isinstance(t, ast.If) and pol is True and isinstance(t.test, ast.Compare) and isinstance(t.test.ops[0], ast.In)
+                  and norm(t.test.comparators[0]).endswith(".indices")]
+        if len(loops) == 2 and member and "range(len(system))" in norm(loops[0].iter) and norm(loops[1].iter) == "clusters" \
+                and not any(isinstance(x, (ast.Break, ast.Continue)) for l in loops for x in ast.walk(l)):
+            ok = True
+    if ok:
+        rep.ok(rid, "_localize_clusters: the overlap map records every (atom, cluster) membership")
+    else:
+        rep.violation(rid, "_localize_clusters: overlap map", "not every (atom, cluster) membership is recorded: some overlaps are never resolved", M.where(fq))
+
+
+# ----------------------------------------------------------------------------- R01.12 duplicate-free index collections
+def r01_12(rep, M, rid):
+    for fq, label in ((GC, "get_clusters"), (SBC + "._merge_clusters.merge", "merge")):
+        fl = Flow(M.func(fq))
+        for call in M.calls_to(fq, CLUSTER_INIT):
+            idx = M.bind_args(CLUSTER_INIT, call).get("indices")
+            at = fl.node_of(call)
+            ok = False
+            if isinstance(idx, ast.Name):
+                defs = fl.rd[at].get(idx.id, ())
+                vals = [v for d in defs for k, v, *_ in [tuple(x) + (None,) for x in fl.def_value(d, idx.id)] if k == "expr"]
+                ok = bool(vals) and all(isinstance(v, (ast.Set, ast.SetComp)) or (isinstance(v, ast.Call) and (
+                    (isinstance(v.func, ast.Name) and v.func.id in ("set", "frozenset")) or
+                    (isinstance(v.func, ast.Attribute) and v.func.attr in ("union", "intersection", "difference") and
+                     isinstance(v.func.value, ast.Call) and isinstance(v.func.value.func, ast.Name) and v.func.value.func.id == "set"))) for v in vals)
+            elif isinstance(idx, (ast.Set, ast.SetComp)):
+                ok = True
+            if ok:
+                rep.ok(rid, f"{label}: the index collection `{norm(idx)}` of a new cluster is a set (duplicate-free)")
+            else:
+                rep.violation(rid, f"{label}: index collection of a new cluster", f"`{norm(idx)}` is not built as a set: the seed atom or shared "
+                              "atoms can appear twice in Cluster.indices", M.where(fq, call))
+    ci = M.func(CLUSTER_INIT)
+    if any(isinstance(c, ast.Call) and isinstance(c.func, ast.Name) and c.func.id == "list" for c in ast.walk(ci)):
+        rep.ok(rid, "Cluster.__init__ stores the indices as a list of the given collection")
+
+
+# ----------------------------------------------------------------------------- R01.13 wrapped working copy
+def r01_13(rep, M, rid):
+    from .c09 import wrapped_states
+    fn = M.func(GC)
+    cfg, IN = wrapped_states(M, fn)
+    fl = Flow(fn)
+    need = []
+    for n, d in fl.cfg.g.nodes(data=True):
+        s = d["ast"]
+        if s is None:
+            continue
+        for c in walk_own(s):
+            if isinstance(c, ast.Call) and ((GEO + ".get_distances") in M.callees_of_call(GC, c) or (PF + ".get_region") in M.callees_of_call(GC, c)):
+                need.append((n, c))
+    for n, c in need:
+        a0 = c.args[0] if c.args else None
+        name = norm(c.func).split(".")[-1]
+        if isinstance(a0, ast.Name) and a0.id in (IN[n] or ()):
+            rep.ok(rid, f"get_clusters: `{a0.id}` is wrapped when handed to {name}")
+        else:
+            rep.violation(rid, f"get_clusters: {name}({norm(a0) if a0 is not None else ''}, ...)", "the working copy is not known to be wrapped here: "
+                          "the minimum-image distances and the cell list assume atoms inside the cell, so unwrapped inputs give other clusters "
+                          "than their wrapped equivalent", M.where(GC, c))
+    if len(need) < 2:
+        raise AnalysisError("get_clusters: get_distances / get_region calls not found")
+
+
 def run(rep, ctx):
     M = ctx.model
     E = Effects(M)
@@ -628,11 +793,15 @@ def run(rep, ctx):
     rep.rule("R01.8", "cleaning keeps exactly one bonded component of the cluster's own matrix")
     rep.rule("R01.9", "every public parameter of get_clusters reaches its consumer")
     rep.rule("R01.10", "call signatures conform on the reachable call graph")
+    rep.rule("R01.11", "localisation removes a shared atom from all but exactly one of its clusters")
+    rep.rule("R01.12", "index collections of new clusters are sets (duplicate-free)")
+    rep.rule("R01.13", "distances and region search run on the wrapped working copy")
     with rep.guard("R01.1"):
         r01_1(rep, M, E, "R01.1")
         r01_1_escape(rep, M, E, "R01.1")
     with rep.guard("R01.2"):
         r01_2(rep, M, "R01.2")
+        call_local_state(rep, M, "R01.2", GC)
     with rep.guard("R01.3"):
         r01_3(rep, M, "R01.3")
     with rep.guard("R01.4"):
@@ -649,6 +818,15 @@ def run(rep, ctx):
         r01_9(rep, M, "R01.9")
     with rep.guard("R01.10"):
         sigs.run(rep, M, "R01.10", scope=M.reachable([GC]))
+    with rep.guard("R01.11"):
+        r01_11(rep, M, "R01.11")
+    with rep.guard("R01.12"):
+        r01_12(rep, M, "R01.12")
+    with rep.guard("R01.13"):
+        r01_13(rep, M, "R01.13")
+    rep.floor("R01.11", 2)
+    rep.floor("R01.12", 2)
+    rep.floor("R01.13", 2)
     rep.floor("R01.1", 2)
     rep.floor("R01.3", 5)
     rep.floor("R01.4", 2)
